@@ -65,6 +65,13 @@ def locked_drive(ctx, lines):
         fcntl.flock(lock, fcntl.LOCK_UN)
 
 
+HYP_SIGNATURE = {
+    'infect-only-susceptible': lambda n: dict(oracle='infect-nonsusceptible', disease=n),
+    'recovery-due-implies-infection-due': lambda n: dict(oracle='timer', disease=n, timer='ti_recovered', kind='due-before-onset'),
+    'congenital-due-only-for-susceptible': lambda n: dict(oracle='timer', disease=n, timer='ti_congenital', kind='due-for-non-susceptible'),
+}
+
+
 def get_facts(ctx):
     facts = {}
     for n in P.DISEASES:
@@ -244,9 +251,11 @@ def correspond(ctx):
             ctx.broke('correspondence', f'C13.{n}.{m}', f'real code is not a function of (flags, observed guards) at `{ln}`: {list(obs)}',
                       data=dict(line=ln))
     for (n, hname), v in hyp_viol.items():
-        ctx.broke('correspondence', f'C13.hypothesis.{hname}',
-                  f'{n}: the hypothesis `{hname}` used by the theorems failed on {v["n"]} observed agent-step(s) (first: ti={v["ti"]} uid={v["uid"]})',
-                  data=dict(cfg=v['cfg'], ti=v['ti'], uid=v['uid']))
+        # a theorem hypothesis failing on the real arrays is itself a violation of the property on the real code (same
+        # signature as the oracle's check of that relation; replay = oracle_run on the stored configuration)
+        sig = HYP_SIGNATURE[hname](n)
+        ctx.fail(sig, f'{n}: the relation `{hname}` assumed by the C13 theorems fails on the real arrays for {v["n"]} agent-step(s) '
+                      f'(first: ti={v["ti"]} uid={v["uid"]})', dict(kind='sim', cfg=v['cfg'], signature=sig, where=dict(ti=v['ti'], uid=v['uid'])))
     for n, (now, other) in ti_now.items():   # the regenerated fact `infectionTimeIsNow` against the live arrays
         fact = facts[n].get('infection_time_is_now')
         if (fact and other) or (fact is False and now and not other):
@@ -324,6 +333,7 @@ def oracle_run(cfg, max_fail=40):
 
     events = {}      # disease name -> {ti: count}
     ever = {}        # disease name -> list of uid arrays
+    not_now = {}     # disease name -> infections whose ti_infected was not the current step when set_prognoses returned
 
     def arg_uids(call):
         a, kw = call.args
@@ -332,8 +342,36 @@ def oracle_run(cfg, max_fail=40):
         return np.asarray(arg.uids if isinstance(arg, (ss.BoolArr, ss.IndexArr)) else arg)
 
     def on_entry(call):
+        dis = call.disease
+        if call.method == 'step_state':
+            au = call.auids
+            if call.name == 'measles':
+                # recovery falls due while the agent has not even become infectious yet (scheduled recovery precedes onset)
+                ei = np.asarray(dis.exposed.raw[au], dtype=bool) | np.asarray(dis.infected.raw[au], dtype=bool)
+                rec = np.asarray(dis.ti_recovered.raw[au], dtype=float) <= call.ti
+                inf = np.asarray(dis.ti_infected.raw[au], dtype=float) <= call.ti
+                bad = ei & rec & ~inf
+                if bad.any():
+                    j = int(np.flatnonzero(bad)[0])
+                    fail(dict(oracle='timer', disease='measles', timer='ti_recovered', kind='due-before-onset'),
+                         f'measles: agent {int(au[j])} at ti={call.ti} is due to recover (ti_recovered={dis.ti_recovered.raw[au[j]]:g}) before its '
+                         f'infection onset (ti_infected={dis.ti_infected.raw[au[j]]:g})', ti=call.ti, uid=int(au[j]))
+            if call.name == 'syphilis':
+                bad = (np.asarray(dis.ti_congenital.raw[au], dtype=float) == call.ti) & ~np.asarray(dis.susceptible.raw[au], dtype=bool)
+                if bad.any():
+                    j = int(np.flatnonzero(bad)[0])
+                    fail(dict(oracle='timer', disease='syphilis', timer='ti_congenital', kind='due-for-non-susceptible'),
+                         f'syphilis: congenital outcome of agent {int(au[j])} falls due at ti={call.ti} but the agent is no longer susceptible', ti=call.ti, uid=int(au[j]))
+            return
         if call.method != 'set_prognoses': return
         u = arg_uids(call)
+        if u is not None and len(u):
+            sus = np.asarray(dis.susceptible.raw[u], dtype=bool)
+            if not sus.all():
+                j = int(np.flatnonzero(~sus)[0])
+                fail(dict(oracle='infect-nonsusceptible', disease=call.name),
+                     f'{call.name}: set_prognoses called at ti={call.ti} on agent {int(u[j])}, which is not susceptible ({int((~sus).sum())} of {len(u)})',
+                     ti=call.ti, uid=int(u[j]))
         if u is None: return
         call.extra = {t: np.asarray(getattr(call.disease, t).raw[u], dtype=float).copy()
                       for t in SPEC[call.name]['timers'] if hasattr(call.disease, t)}
@@ -345,6 +383,8 @@ def oracle_run(cfg, max_fail=40):
         nm = call.disease.name
         events.setdefault(nm, {}); events[nm][call.ti] = events[nm].get(call.ti, 0) + len(u)
         ever.setdefault(nm, []).append(u.copy())
+        if len(u):
+            not_now[nm] = not_now.get(nm, 0) + int((np.asarray(call.disease.ti_infected.raw[u], dtype=float) != call.ti).sum())
         # scheduled exits never precede the infection
         spec = SPEC[call.name]
         for t in spec['timers']:
@@ -450,7 +490,8 @@ def oracle_run(cfg, max_fail=40):
         got = np.asarray(dis.results.new_infections.values if hasattr(dis.results.new_infections, 'values') else dis.results.new_infections, dtype=float)
         cum = np.asarray(dis.results.cum_infections.values if hasattr(dis.results.cum_infections, 'values') else dis.results.cum_infections, dtype=float)
         if not np.array_equal(got, exp):
-            pattern = 'all-zero' if (not got.any() and exp.sum() > 0) else 'mismatch'
+            # undercount because set_prognoses left ti_infected at another (future) time, or any other mismatch
+            pattern = 'future-ti-infected' if (not_now.get(nm, 0) > 0 and got.sum() <= exp.sum()) else 'mismatch'
             t = int(np.flatnonzero(got != exp)[0])
             fail(dict(oracle='new-infections', disease=dn, pattern=pattern),
                  f'{dn}: new_infections differs from the number of infection events (set_prognoses calls): first at ti={t}: recorded {got[t]:g}, '
